@@ -46,7 +46,7 @@ MANIFEST = dict(
           "binary64 -> Rat checked by (I) at +-ulp of midnight/noon (boundary rule: an instant within 2 ulp of a year's "
           "end may return the next integer; year() of instants closer than 1e-9 day only non-decreasing). Python's float % "
           "cannot return 1.0 here: the operand of the final % 1 is >= 0.27 for every JDE >= 0. Known finding: the 1.2 s "
-          "bound on the equation of the equinoxes fails for JDE > 3.9e6 (findings.d/C16.json). Integer years only; "
+          "bound on the equation of the equinoxes fails for JDE > 3.9e6 (known_findings.json (property C16)). Integer years only; "
           "Epoch.utc2local / local=True not modelled."),
     technique="Lean 4 proof (floor/mod lemmas, staged omega) + model/implementation correspondence check + predicates",
     ref='6 C16')
